@@ -170,6 +170,7 @@ NOTES = {
     'C17-automaton-start-qnum-zero': 'round 4, first run: MISSED (the statement of C17 does not mention node labels; the change breaks the later graph-to-MPO conversion). r_C17 now compares the quantum numbers of the terminal nodes of the unrolled graph with those of the automaton terminals',
     'C18-dfs-dead-end-not-marked': 'round 4, first run: MISSED (the matching stays correct, the running time becomes exponential on a lattice of dead ends). r_C18 has that family (up to 68 x 65 vertices) with a 5 s limit per graph; the unchanged routine needs milliseconds',
     'C18-edge-validation-hoisted': 'round 4, first run: CHECKER-BROKEN (the constructor raised at a place of the harness that had no handler, which was classified as a harness error). The runner now classifies an uncaught exception whose innermost frame is in pytenet as a failure of the clause `returns`',
+    'C19-opgraph-terminal-ids-aliased': 'round 4, first run: MISSED by C19 (caught by the C16 stand-in after its graph builder passed the caller-owned list). r_C19 builds two graphs from the same argument lists and flips / renames one; engine F has a frame contract for OpGraph.__init__ (only the node and edge objects may be kept)',
     'C06-zero-coeff-filter-tolerance': 'first run: MISSED. r_C06 now includes parameter points scaled by 1e-9 ... 1e+12 (every parameter value is legal)',
 }
 
